@@ -197,7 +197,7 @@ impl<'a> Bytes<usize> for FileVolatileSlice<'a> {
     }
 
     fn read_slice(&self, buf: &mut [u8], addr: usize) -> Result<(), Self::E> {
-        VolatileSlice::write_slice(&self.as_volatile_slice(), buf, addr)
+        VolatileSlice::read_slice(&self.as_volatile_slice(), buf, addr)
     }
 
     fn read_volatile_from<F>(
